@@ -368,6 +368,9 @@ def install(I):
 
     def np_array(I_, a, k):
         v = a[0]
+        from .heap import FilteredArr
+        if isinstance(v, FilteredArr):
+            return v                  # the array of the kept elements, in order (read pointwise by the proof scripts)
         if isinstance(v, SymArr):
             r = v.copy()
             r.is_list = False
